@@ -76,6 +76,11 @@ pub struct Model {
     pub last_wait: Option<(u64, i128)>,
     /// a forged / unknown response was dropped since `last_wait` was recorded
     pub dropped_since_wait: bool,
+    /// property under check: discrepancies in clauses of *other* properties are tolerated where
+    /// the model can simply follow the agent (they are counted, not reported), so that the
+    /// clauses of the property under check stay observable for the rest of the run
+    pub check_prop: String,
+    pub tolerated: Vec<&'static str>,
 }
 
 fn v(p: &str, clause: &str, site: &str, m: String) -> Violation {
@@ -101,7 +106,7 @@ pub fn configured_schedule(tcp: bool, rto_ms: u64, n: u32, last_ms: u64) -> (Vec
 
 impl Model {
     pub fn new(tcp: bool, local: SocketAddr) -> Self {
-        Self { tcp, local, txs: vec![], validated: BTreeSet::new(), remote: None, last_wait: None, dropped_since_wait: false }
+        Self { tcp, local, txs: vec![], validated: BTreeSet::new(), remote: None, last_wait: None, dropped_since_wait: false, check_prop: String::new(), tolerated: vec![] }
     }
     pub fn live_idx(&self, tid: u128) -> Option<usize> {
         self.txs.iter().position(|t| t.tid == tid && t.status == Status::Live)
@@ -118,6 +123,15 @@ impl Model {
     pub fn min_next(&self) -> Option<u64> {
         self.live().map(|t| if t.rc { 0 } else { t.next_instant() }).min()
     }
+    /// A discrepancy the model can follow: an error only if it belongs to the property under check.
+    fn soft(&mut self, viol: Violation, key: &'static str) -> Result<(), Violation> {
+        if self.check_prop.is_empty() || viol.property == self.check_prop {
+            Err(viol)
+        } else {
+            self.tolerated.push(key);
+            Ok(())
+        }
+    }
     fn invalidate_wait(&mut self) {
         self.last_wait = None;
         self.dropped_since_wait = false;
@@ -130,6 +144,14 @@ impl Model {
                 Reply::SendErr(e) if e.contains("AlreadyInProgress") => Ok(()),
                 o => Err(v("C05", "duplicate_id_refused", "send", format!("send of a request whose id {tid:#x} is outstanding answered {}", o.short()))),
             };
+        }
+        // C20, last sentence: with other transactions outstanding, a send must still be answered with
+        // its own transmission (the instant passed to it must not be applied to the others)
+        if self.check_prop == "C20" && self.live_count() > 0 {
+            let own = matches!(reply, Reply::Transmit { data, .. } if data == bytes);
+            if !own {
+                return Err(v("C20", "no_instant_leak", "send", format!("send of request {tid:#x} at +{} while {} other transaction(s) were outstanding answered {} instead of its own initial transmission", fmt_ns(now as i128), self.live_count(), reply.short())));
+            }
         }
         match reply {
             Reply::Transmit { data, from, to, tcp } => {
@@ -186,12 +208,13 @@ impl Model {
             if self.live_count() > 0 {
                 let prop = if self.dropped_since_wait { "C07" } else { "C06" };
                 let clause = if self.dropped_since_wait { "drop_left_timing_unchanged" } else { "wait_self_consistent" };
+                let key = if self.dropped_since_wait { "foreign.C07.drop_left_timing_unchanged" } else { "foreign.C06.wait_self_consistent" };
                 if (now as i128) < t {
                     if *reply != Reply::Wait(t) {
-                        return Err(v(prop, clause, "early_poll", format!("poll at +{} answered WaitUntil(+{}); polling again earlier, at +{}, answered {} instead of the same instant", fmt_ns(p as i128), fmt_ns(t), fmt_ns(now as i128), reply.short())));
+                        self.soft(v(prop, clause, "early_poll", format!("poll at +{} answered WaitUntil(+{}); polling again earlier, at +{}, answered {} instead of the same instant", fmt_ns(p as i128), fmt_ns(t), fmt_ns(now as i128), reply.short())), key)?;
                     }
                 } else if matches!(reply, Reply::Wait(_)) {
-                    return Err(v(prop, clause, "poll_at_wakeup", format!("poll at +{} answered WaitUntil(+{}); polling at +{} (not earlier than that) answered {} instead of an event", fmt_ns(p as i128), fmt_ns(t), fmt_ns(now as i128), reply.short())));
+                    self.soft(v(prop, clause, "poll_at_wakeup", format!("poll at +{} answered WaitUntil(+{}); polling at +{} (not earlier than that) answered {} instead of an event", fmt_ns(p as i128), fmt_ns(t), fmt_ns(now as i128), reply.short())), key)?;
                 }
             }
         }
@@ -199,21 +222,27 @@ impl Model {
             Reply::Wait(t) => {
                 let mut m1: Option<u64> = None;
                 let mut any_sc = false;
+                let mut pending: Vec<(Violation, &'static str)> = vec![];
                 for tx in self.live() {
                     if tx.rc {
-                        return Err(v("C05", "cancel_reported", "poll", format!("transaction {:#x} was cancelled but poll answered {}", tx.tid, reply.short())));
+                        pending.push((v("C05", "cancel_reported", "poll", format!("transaction {:#x} was cancelled but poll answered {}", tx.tid, reply.short())), "foreign.C05.cancel_reported"));
+                        continue;
                     }
                     if tx.sc {
                         any_sc = true;
                         if now >= tx.deadline() {
-                            return Err(v("C05", "send_cancelled_completes", "poll", format!("transaction {:#x} (retransmissions cancelled) is past its whole schedule at +{} but poll answered {}", tx.tid, fmt_ns(now as i128), reply.short())));
+                            pending.push((v("C05", "send_cancelled_completes", "poll", format!("transaction {:#x} (retransmissions cancelled) is past its whole schedule at +{} but poll answered {}", tx.tid, fmt_ns(now as i128), reply.short())), "foreign.C05.send_cancelled_completes"));
                         }
                         continue;
                     }
                     if tx.next_instant() <= now {
-                        return Err(v("C06", "due_served", "poll", format!("transaction {:#x} needs service at +{} (k={}) but poll at +{} answered {}", tx.tid, fmt_ns(tx.next_instant() as i128), tx.k, fmt_ns(now as i128), reply.short())));
+                        pending.push((v("C06", "due_served", "poll", format!("transaction {:#x} needs service at +{} (k={}) but poll at +{} answered {}", tx.tid, fmt_ns(tx.next_instant() as i128), tx.k, fmt_ns(now as i128), reply.short())), "foreign.C06.due_served"));
                     }
                     m1 = Some(m1.map_or(tx.next_instant(), |m| m.min(tx.next_instant())));
+                }
+                let had_pending = !pending.is_empty();
+                for (viol, key) in pending {
+                    self.soft(viol, key)?;
                 }
                 if self.live_count() > 0 {
                     let ok = if !any_sc {
@@ -222,8 +251,8 @@ impl Model {
                         let within_sc = self.live().any(|tx| tx.sc && *t > now as i128 && *t <= tx.deadline() as i128);
                         (Some(*t) == m1.map(|m| m as i128)) || (within_sc && m1.map_or(true, |m| *t <= m as i128))
                     };
-                    if !ok {
-                        return Err(v("C06", "wait_value", "poll", format!("poll at +{} answered WaitUntil(+{}) but the earliest instant at which an outstanding transaction needs service is {}", fmt_ns(now as i128), fmt_ns(*t), m1.map(|m| format!("+{}", fmt_ns(m as i128))).unwrap_or("(send-cancelled only)".into()))));
+                    if !ok && !had_pending {
+                        self.soft(v("C06", "wait_value", "poll", format!("poll at +{} answered WaitUntil(+{}) but the earliest instant at which an outstanding transaction needs service is {}", fmt_ns(now as i128), fmt_ns(*t), m1.map(|m| format!("+{}", fmt_ns(m as i128))).unwrap_or("(send-cancelled only)".into()))), "foreign.C06.wait_value")?;
                     }
                     self.last_wait = Some((now, *t));
                     self.dropped_since_wait = false;
@@ -233,39 +262,38 @@ impl Model {
                 Ok(PollOutcome::Wait)
             }
             Reply::Transmit { data, from, to, tcp } => {
-                // find the due transaction this belongs to
-                let cand = self.txs.iter().position(|tx| tx.status == Status::Live && !tx.rc && !tx.sc && tx.k < tx.intervals_ms.len() && tx.next_instant() <= now && tx.bytes == *data);
-                let Some(i) = cand else {
-                    // explain
-                    let tid = tid_of(data);
-                    if let Some(tid) = tid {
-                        if let Some(j) = self.txs.iter().rposition(|tx| tx.tid == tid) {
-                            let tx = &self.txs[j];
-                            if tx.status != Status::Live {
-                                return Err(v("C05", "no_transmission_after_completion", "poll", format!("poll produced a transmission for transaction {tid:#x} which already completed ({:?})", tx.status)));
-                            }
-                            if tx.sc || tx.rc {
-                                return Err(v("C06", "no_transmission_after_cancel", "poll", format!("poll produced a transmission for transaction {tid:#x} after its retransmissions were cancelled")));
-                            }
-                            if tx.bytes != *data {
-                                return Err(v("C18", "retransmit_bytes", "poll", format!("retransmission of {tid:#x} differs from the serialised request")));
-                            }
-                            if tx.k >= tx.intervals_ms.len() {
-                                return Err(v("C06", "retransmit_count", "poll", format!("transaction {tid:#x} was retransmitted {} times, more than the configured {}", tx.k + 1, tx.intervals_ms.len())));
-                            }
-                            return Err(v("C06", "retransmit_not_early", "poll", format!("transaction {tid:#x}: retransmission {} handed out at +{} but due at +{}", tx.k + 1, fmt_ns(now as i128), fmt_ns(tx.next_instant() as i128))));
-                        }
-                    }
-                    return Err(v("C18", "retransmit_bytes", "poll", "poll produced a transmission that matches no outstanding request".into()));
+                // which transaction is this for?  exact bytes of a live one first, then by id
+                let by_bytes = self.txs.iter().position(|tx| tx.status == Status::Live && tx.bytes == *data);
+                let idx = match by_bytes {
+                    Some(i) => Some(i),
+                    None => tid_of(data).and_then(|tid| self.txs.iter().rposition(|tx| tx.tid == tid)),
                 };
-                let tx = &mut self.txs[i];
-                if *from != self.local || *to != tx.dest || *tcp != self.tcp {
-                    return Err(v("C18", "retransmit_addressing", "poll", format!("retransmission of {:#x} addressed {from}->{to} tcp={tcp}, expected {}->{}", tx.tid, self.local, tx.dest)));
+                let Some(i) = idx else {
+                    return Err(v("C18", "retransmit_bytes", "poll", "poll produced a transmission that matches no request ever sent".into()));
+                };
+                let tid = self.txs[i].tid;
+                if self.txs[i].status != Status::Live {
+                    return Err(v("C05", "no_transmission_after_completion", "poll", format!("poll produced a transmission for transaction {tid:#x} which already completed ({:?})", self.txs[i].status)));
                 }
-                tx.k += 1;
+                if self.txs[i].bytes != *data {
+                    self.soft(v("C18", "retransmit_bytes", "poll", format!("retransmission of {tid:#x} differs from the serialised request ({}B vs {}B)", data.len(), self.txs[i].bytes.len())), "foreign.C18.retransmit_bytes")?;
+                }
+                if *from != self.local || *to != self.txs[i].dest || *tcp != self.tcp {
+                    self.soft(v("C18", "retransmit_addressing", "poll", format!("retransmission of {tid:#x} addressed {from}->{to} tcp={tcp}, expected {}->{}", self.local, self.txs[i].dest)), "foreign.C18.retransmit_addressing")?;
+                }
+                if self.txs[i].sc || self.txs[i].rc {
+                    self.soft(v("C06", "no_transmission_after_cancel", "poll", format!("poll produced a transmission for transaction {tid:#x} after its retransmissions were cancelled")), "foreign.C06.no_transmission_after_cancel")?;
+                } else if self.txs[i].k >= self.txs[i].intervals_ms.len() {
+                    self.soft(v("C06", "retransmit_count", "poll", format!("transaction {tid:#x} was retransmitted {} times, more than the configured {}", self.txs[i].k + 1, self.txs[i].intervals_ms.len())), "foreign.C06.retransmit_count")?;
+                } else if self.txs[i].next_instant() > now {
+                    self.soft(v("C06", "retransmit_not_early", "poll", format!("transaction {tid:#x}: retransmission {} handed out at +{} but due at +{}", self.txs[i].k + 1, fmt_ns(now as i128), fmt_ns(self.txs[i].next_instant() as i128))), "foreign.C06.retransmit_not_early")?;
+                }
+                let tx = &mut self.txs[i];
+                if tx.k < tx.intervals_ms.len() {
+                    tx.k += 1;
+                }
                 tx.last = now;
                 tx.transmissions += 1;
-                let tid = tx.tid;
                 self.invalidate_wait();
                 Ok(PollOutcome::Retransmit(tid))
             }
@@ -273,15 +301,17 @@ impl Model {
                 let Some(i) = self.live_idx(*tid) else {
                     return Err(v("C05", "completion_only_for_outstanding", "poll", format!("poll reported a time-out for {tid:#x} which is not outstanding")));
                 };
-                let tx = &mut self.txs[i];
-                if !tx.sc {
+                if !self.txs[i].sc {
+                    let tx = &self.txs[i];
                     if tx.k < tx.intervals_ms.len() {
-                        return Err(v("C06", "timeout_after_all_retransmissions", "poll", format!("transaction {tid:#x} timed out after {} of {} retransmissions", tx.k, tx.intervals_ms.len())));
-                    }
-                    if tx.next_instant() > now {
-                        return Err(v("C06", "timeout_not_early", "poll", format!("transaction {tid:#x} timed out at +{}, {} before last transmission + final timeout (+{})", fmt_ns(now as i128), fmt_ns((tx.next_instant() - now) as i128), fmt_ns(tx.next_instant() as i128))));
+                        let viol = v("C06", "timeout_after_all_retransmissions", "poll", format!("transaction {tid:#x} timed out after {} of {} retransmissions", tx.k, tx.intervals_ms.len()));
+                        self.soft(viol, "foreign.C06.timeout_after_all_retransmissions")?;
+                    } else if tx.next_instant() > now {
+                        let viol = v("C06", "timeout_not_early", "poll", format!("transaction {tid:#x} timed out at +{}, {} before last transmission + final timeout (+{})", fmt_ns(now as i128), fmt_ns((tx.next_instant() - now) as i128), fmt_ns(tx.next_instant() as i128)));
+                        self.soft(viol, "foreign.C06.timeout_not_early")?;
                     }
                 }
+                let tx = &mut self.txs[i];
                 tx.status = Status::TimedOut;
                 tx.completed_at = Some(now);
                 self.invalidate_wait();
@@ -291,10 +321,10 @@ impl Model {
                 let Some(i) = self.live_idx(*tid) else {
                     return Err(v("C05", "completion_only_for_outstanding", "poll", format!("poll reported a cancellation for {tid:#x} which is not outstanding")));
                 };
-                let tx = &mut self.txs[i];
-                if !tx.sc && !tx.rc {
-                    return Err(v("C05", "cancel_only_if_requested", "poll", format!("transaction {tid:#x} reported cancelled but was never cancelled")));
+                if !self.txs[i].sc && !self.txs[i].rc {
+                    self.soft(v("C05", "cancel_only_if_requested", "poll", format!("transaction {tid:#x} reported cancelled but was never cancelled")), "foreign.C05.cancel_only_if_requested")?;
                 }
+                let tx = &mut self.txs[i];
                 tx.status = Status::Cancelled;
                 tx.completed_at = Some(now);
                 self.invalidate_wait();
